@@ -8,18 +8,19 @@
 (*                                                                         *)
 (* IndInv is inductive:                                                    *)
 (*     apalache-mc check --cinit=ConstInit --init=IndInit --inv=IndInv     *)
-(*                       --length=1 BudgetInd.tla        (IndInv preserved)*)
+(*                       --length=1 BudgetIndApa.tla     (IndInv preserved)*)
 (*     apalache-mc check --cinit=ConstInit --init=Init --inv=IndInv        *)
-(*                       --length=0 BudgetInd.tla        (holds initially) *)
+(*                       --length=0 BudgetIndApa.tla     (holds initially) *)
 (* with sequences of up to N = 5 logged grants in the pre-state (Gen(5)).  *)
 (* IndInv contains `agree`: every consume()/remaining() of M returned what *)
 (* P expects (no over-grant, no refusal although capacity), and            *)
 (* WindowBound: no window of length W ending at a grant holds more than    *)
 (* max tokens.                                                             *)
-(* The recursive PopOld of Budget.tla is written here as SelectSeq (equal  *)
-(* on sorted deques; TLC checks that equality in BudgetMC: PopOldIsSelect).*)
+(* The recursive PopOld of Budget.tla is written here as SelectSeq.  TLC    *)
+(* binds this module to Budget.tla: BudgetIndX checks that every step here *)
+(* is Budget!UApply with the same result (and BudgetMC: PopOldIsSelect).   *)
 (***************************************************************************)
-EXTENDS Integers, Sequences, FiniteSets, Apalache
+EXTENDS Integers, Sequences, FiniteSets
 
 CONSTANTS
     \* @type: Int;
@@ -35,7 +36,10 @@ VARIABLES
     \* @type: Int;
     last,
     \* @type: Bool;
-    agree
+    agree,
+    \* the operation just performed and what M answered (bound to Budget!UApply by BudgetIndX)
+    \* @type: { op: Str, cost: Int, ret: Int };
+    did
 
 ConstInit == Max \in Nat /\ W \in Nat /\ W >= 1
 
@@ -63,6 +67,7 @@ Consume(t, cost) ==
     IN  /\ q' = IF ret = 1 THEN q1 \o Rep(t, cost) ELSE q1
         /\ g' = IF ret = 1 THEN g \o Rep(t, cost) ELSE g
         /\ agree' = (agree /\ ret = exp)
+        /\ did' = [op |-> "consume", cost |-> cost, ret |-> ret]
         /\ last' = t
 
 Remaining(t) ==
@@ -72,11 +77,14 @@ Remaining(t) ==
         m   == Max - InWindow(g, t)
         exp == IF m > 0 THEN m ELSE 0
     IN  /\ q' = q1 /\ g' = g /\ agree' = (agree /\ ret = exp) /\ last' = t
+        /\ did' = [op |-> "remaining", cost |-> 0, ret |-> ret]
 
-Next == \E t \in Int : t >= last /\ (\/ \E cost \in 1..3 : Consume(t, cost)
+\* all integers for the symbolic proof; TLC's cross-check (BudgetIndX) overrides it by a finite set
+Times == Int
+Next == \E t \in Times : t >= last /\ (\/ \E cost \in 1..3 : Consume(t, cost)
                                       \/ Remaining(t))
 
-Init == q = <<>> /\ g = <<>> /\ last = 0 /\ agree = TRUE
+Init == q = <<>> /\ g = <<>> /\ last = 0 /\ agree = TRUE /\ did = [op |-> "init", cost |-> 0, ret |-> 0]
 
 IndInv ==
     /\ agree
@@ -85,7 +93,4 @@ IndInv ==
     /\ q = Prune(g, last - W)
     /\ Len(q) <= Max
     /\ WindowBound(g)
-
-IndInit == /\ g = Gen(5) /\ q = Gen(5) /\ last \in Int /\ agree \in BOOLEAN
-           /\ IndInv
 =============================================================================
